@@ -34,7 +34,7 @@ pub fn gen_programs(rng: &mut Rng, nprog: usize) -> Vec<Program> {
 pub static BIG_PES: std::sync::atomic::AtomicBool = std::sync::atomic::AtomicBool::new(false);
 pub fn pes_payload(rng: &mut Rng) -> Vec<u8> {
     // beyond any 16-bit counter (only where the suite pushes in small pieces: the model's cost per push is quadratic)
-    if BIG_PES.load(std::sync::atomic::Ordering::Relaxed) && rng.chance(1, 60) { let n = rng.range(65_000, 140_000) as usize; return rng.bytes(n); }
+    if BIG_PES.load(std::sync::atomic::Ordering::Relaxed) && rng.chance(1, 500) { let n = rng.range(65_600, 72_000) as usize; return rng.bytes(n); }
     let n = match rng.below(10) { 0 => 0, 1 => 1, 2 => 184 - 9, 3 => 184 - 14, 4 => 184 - 19, 5 => 368 - 14, 6 => rng.range(2, 40) as usize, 7 => rng.range(150, 200) as usize, _ => rng.range(0, 900) as usize };
     let mut b = rng.bytes(n);
     // elementary-stream bytes that look like transport / PES syntax: start codes, sync bytes, stuffing, all zero
